@@ -1481,7 +1481,7 @@ def run_slots(ctx: common.Ctx, props, n_docs: int, n_ops: int):
                 # the harness could not even observe the call (tree unusable): stop this document
                 ctx.dist('harness_skip:' + type(e).__name__)
                 break
-            if op['op'] == 'unclaim_inter' and rec['exn'] is None:
+            if op['op'] in ('unclaim_inter', 'spacing') and rec['exn'] is None:
                 loose = True
             cls = op_class(op, rec)
             ctx.dist(cls)
